@@ -6,11 +6,13 @@
   `Spec.applies`.
 -/
 import VM.Impl.Post
+import VM.Proofs.PostProof
+import VM.Properties.C01
 namespace VM.C19
-open VM Post
+open VM Post Impl Spec
 
 /-- at every object, a member remains exactly when some schema reached it -/
-theorem pruneMembers_keys (es : List Entry) (pos : Pos) (kvs : List (String × JVal)) (k : String) :
+theorem pruneMembers_keys (es : List Entry) (pos : Post.Pos) (kvs : List (String × JVal)) (k : String) :
     k ∈ (pruneMembers es pos kvs).map Prod.fst ↔ (k ∈ kvs.map Prod.fst ∧ hasEntry es pos k = true) := by
   induction kvs with
   | nil => simp [pruneMembers]
@@ -35,7 +37,7 @@ theorem pruneMembers_keys (es : List Entry) (pos : Pos) (kvs : List (String × J
 
 mutual
 /-- pruning already pruned data (against the same recorded entries) removes nothing more -/
-theorem prune_idempotent (es : List Entry) (pos : Pos) (v : JVal) :
+theorem prune_idempotent (es : List Entry) (pos : Post.Pos) (v : JVal) :
     prune es pos (prune es pos v) = prune es pos v := by
   match v with
   | .null => rfl
@@ -44,7 +46,7 @@ theorem prune_idempotent (es : List Entry) (pos : Pos) (v : JVal) :
   | .str _ => rfl
   | .arr xs => simp only [prune]; rw [pruneElems_idempotent es pos 0 xs]
   | .obj kvs => simp only [prune]; rw [pruneMembers_idempotent es pos kvs]
-theorem pruneMembers_idempotent (es : List Entry) (pos : Pos) (kvs : List (String × JVal)) :
+theorem pruneMembers_idempotent (es : List Entry) (pos : Post.Pos) (kvs : List (String × JVal)) :
     pruneMembers es pos (pruneMembers es pos kvs) = pruneMembers es pos kvs := by
   match kvs with
   | [] => rfl
@@ -55,7 +57,7 @@ theorem pruneMembers_idempotent (es : List Entry) (pos : Pos) (kvs : List (Strin
       rw [prune_idempotent es (pos ++ [k]) x, pruneMembers_idempotent es pos rest]
     · simp only [h, Bool.false_eq_true, ↓reduceIte]
       exact pruneMembers_idempotent es pos rest
-theorem pruneElems_idempotent (es : List Entry) (pos : Pos) (i : Nat) (xs : List JVal) :
+theorem pruneElems_idempotent (es : List Entry) (pos : Post.Pos) (i : Nat) (xs : List JVal) :
     pruneElems es pos i (pruneElems es pos i xs) = pruneElems es pos i xs := by
   match xs with
   | [] => rfl
@@ -65,18 +67,58 @@ theorem pruneElems_idempotent (es : List Entry) (pos : Pos) (i : Nat) (xs : List
 end
 
 /-- array elements are never removed, only looked into -/
-theorem pruneElems_length (es : List Entry) (pos : Pos) (i : Nat) (xs : List JVal) :
+theorem pruneElems_length (es : List Entry) (pos : Post.Pos) (i : Nat) (xs : List JVal) :
     (pruneElems es pos i xs).length = xs.length := by
   induction xs generalizing i with
   | nil => rfl
   | cons x rest ih => simp [pruneElems, ih]
 
 /-- scalars are untouched -/
-theorem prune_scalar (es : List Entry) (pos : Pos) (v : JVal)
+theorem prune_scalar (es : List Entry) (pos : Post.Pos) (v : JVal)
     (h : match v with | .arr _ | .obj _ => False | _ => True) : prune es pos v = v := by
   cases v <;> simp_all [prune]
 
-/-! non-vacuity -/
+theorem hasEntry_iff (es : List Entry) (pos : Post.Pos) (k : String) :
+    hasEntry es pos k = true ↔ ∃ e ∈ es, e.pos = pos ∧ e.field = k := by
+  simp [hasEntry, List.any_eq_true]
+
+/-- **C19 against the specification of applicable schemas.** For every schema of the vocabulary, definitions table,
+    amount of `$ref` fuel and admissible instance (any instance for the repaired configuration), pruning with the entries
+    the validator tree records keeps a member of the object at `pos` exactly when it is present and some applicable schema
+    describes it (through properties, pattern properties, additionalProperties, every allOf member, the selected anyOf /
+    oneOf alternative, schema dependencies of present keys, at any depth) — nothing else is removed, nothing else is kept. -/
+theorem C19_member_remains_iff_described (cfg : Cfg) (O : Oracles)
+    (hleak : cfg.leaksImportant = false) (hbound : cfg.addlItemsBound = false)
+    (hO : cfg.floatTolerance = true → OExact O)
+    (defs : String → Option Schema) (hdefs : DefsWf cfg defs) (n : Nat) (s : Schema)
+    (hs : wf cfg (fun name => (defs name).isSome) s = true) (v : JVal) (hv : adm cfg v = true)
+    (pos : Post.Pos) (kvs : List (String × JVal)) (k : String) :
+    k ∈ (pruneMembers (entriesF cfg O defs n s [] v) pos kvs).map Prod.fst
+      ↔ (k ∈ kvs.map Prod.fst ∧ ∃ a ∈ appliesF O defs n s [] v, a.pos = pos ∧ a.field = k) := by
+  rw [pruneMembers_keys, hasEntry_iff]
+  have hsim := PostProof.entriesF_sim cfg O hleak hbound hO defs hdefs n s hs [] v hv
+  constructor
+  · rintro ⟨h1, e, he, h2⟩; exact ⟨h1, e, (hsim e).mp he, h2⟩
+  · rintro ⟨h1, e, he, h2⟩; exact ⟨h1, e, (hsim e).mpr he, h2⟩
+
+/-- the repaired configuration: every instance -/
+theorem C19_repaired (O : Oracles) (defs : String → Option Schema) (hdefs : DefsWf Cfg.repaired defs) (n : Nat) (s : Schema)
+    (hs : wf Cfg.repaired (fun name => (defs name).isSome) s = true) (v : JVal)
+    (pos : Post.Pos) (kvs : List (String × JVal)) (k : String) :
+    k ∈ (pruneMembers (entriesF Cfg.repaired O defs n s [] v) pos kvs).map Prod.fst
+      ↔ (k ∈ kvs.map Prod.fst ∧ ∃ a ∈ appliesF O defs n s [] v, a.pos = pos ∧ a.field = k) :=
+  C19_member_remains_iff_described Cfg.repaired O rfl rfl (fun h => by cases h) defs hdefs n s hs v (C01.adm_repaired v) pos kvs k
+
+/-! non-vacuity: a schema with a defaulted property under an anyOf alternative meets the hypotheses -/
+def sPost : Schema :=
+  .mk { types := ["object"] } none [] none
+    [("a", .mk { types := ["integer"], default := some (.num 1) } none [] none [] [] none [] [] [] [] none)]
+    [] none [] []
+    [.mk {} none [] none [("b", .mk { default := some (.str "x") } none [] none [] [] none [] [] [] [] none)] [] none [] [] [] [] none]
+    [] none
+example : wf Cfg.repaired (fun _ => false) sPost = true := by decide
+example : DefsWf Cfg.repaired (fun _ => none) := by intro _ _ h; cases h
+
 example : jeq (prune [{ pos := [], field := "a", dflt := none }] [] (.obj [("a", .num 1), ("b", .num 2)]))
     (.obj [("a", .num 1)]) = true := by decide
 
